@@ -72,6 +72,21 @@ fn check(sys: &System, out: &mut Vec<Violation>, stats: &mut Stats) {
                 bad(format!("error differs from the highest level's own error: {:?} vs {:?}", a.error, b.error));
             } else if a.num_vars != b.num_vars || a.num_eqs != b.num_eqs {
                 bad("failure sizes differ from the highest level's".to_owned());
+            } else {
+                // the failure's warnings are the highest level's, indices mapped to caller positions
+                let wa = enc_warnings(&a.warnings);
+                let wb: Vec<String> = b
+                    .warnings
+                    .iter()
+                    .map(|w| {
+                        let mut w2 = *w;
+                        w2.about_constraint = w.about_constraint.map(|i| pos[i]);
+                        enc_warning(&w2)
+                    })
+                    .collect();
+                if wa != wb.join(",") {
+                    bad(format!("failure warnings {wa} but the highest level alone gives {}", wb.join(",")));
+                }
             }
         }
         (Ok(a), Ok((b, pos, p))) => {
